@@ -316,6 +316,10 @@ BASES = {
     "phased": [{"op": "new", "name": "S1"}, {"op": "add_comp", "parents": ["S1"], "kind": "Converter", "name": "C"},
                {"op": "add_comp", "parents": ["C"], "kind": "PLoad", "name": "L"}, {"op": "set_sys_phases", "phases": {"a": 1.0, "b": 3.0}},
                {"op": "set_comp_phases", "target": "C", "conf": ["a"]}, {"op": "set_comp_phases", "target": "L", "conf": {"a": 0.3}}],
+    # a phase configuration stored under the component's RAIL name (the API resolves both); later calls address it by name
+    "phased-by-rail": [{"op": "new", "name": "S1", "rail": "VIN"}, {"op": "add_comp", "parents": ["S1"], "kind": "Converter", "name": "C", "rail": "R1"},
+                       {"op": "add_comp", "parents": ["R1"], "kind": "PLoad", "name": "L"}, {"op": "set_sys_phases", "phases": {"a": 1.0, "b": 3.0}},
+                       {"op": "set_comp_phases", "target": "R1", "conf": ["a"]}, {"op": "set_comp_phases", "target": "L", "conf": {"a": 0.3}}],
     "two-src-del": [{"op": "new", "name": "S1"}, {"op": "add_source", "name": "S2"}, {"op": "add_comp", "parents": ["S1"], "kind": "PLoad", "name": "L1"},
                     {"op": "add_comp", "parents": ["S2"], "kind": "Converter", "name": "C"}, {"op": "add_comp", "parents": ["C"], "kind": "ILoad", "name": "L2"},
                     {"op": "del_comp", "target": "S1", "del_childs": True}],
